@@ -46,8 +46,25 @@ def key_chain(ctx, res):
                     and isinstance(a.value.right, ast.Subscript):
                 n_dec += 1
                 sl = a.value.right.slice
-                start = sl.lower.value if isinstance(sl, ast.Slice) \
-                    and isinstance(sl.lower, ast.Constant) else None
+
+                def _const_int(e, depth=0):
+                    if isinstance(e, ast.Constant) and isinstance(e.value, int):
+                        return e.value
+                    if isinstance(e, ast.Call) and norm(e.func) == "len" \
+                            and len(e.args) == 1 and isinstance(
+                            e.args[0], ast.Constant) and isinstance(
+                            e.args[0].value, str):
+                        return len(e.args[0].value)
+                    if isinstance(e, ast.Name) and depth < 3:
+                        ds = [x.value for x in ast.walk(fn)
+                              if isinstance(x, ast.Assign)
+                              and any(isinstance(t, ast.Name) and t.id == e.id
+                                      for t in x.targets)]
+                        if len(ds) == 1:
+                            return _const_int(ds[0], depth + 1)
+                    return None
+                start = _const_int(sl.lower) if isinstance(sl, ast.Slice) \
+                    else None
                 key = f"{qual}:cache-key"
                 res.instance(key, mod.loc(a), expr=norm(a.value))
                 res.oblige(norm(a.value.right.value).endswith(".__name__")
@@ -183,6 +200,14 @@ def key_chain(ctx, res):
     h = h[0]
     keydef = [a for a in ast.walk(h) if isinstance(a, ast.Assign)
               and norm(a.value) == "TraitsCache + property_name"]
+    if not keydef:
+        # ... or written directly as the key of the pop (possibly in a local
+        # closure of the factory that the handler calls)
+        keydef = [c for c in ast.walk(fn) if isinstance(c, ast.Call)
+                  and isinstance(c.func, ast.Attribute)
+                  and c.func.attr == "pop"
+                  and norm(c.func.value).endswith(".__dict__") and c.args
+                  and norm(c.args[0]) == "TraitsCache + property_name"]
     res.instance("observe-handler:key", mod.loc(h))
     res.oblige(bool(keydef), "observe-handler:key", mod.loc(h),
                "the invalidation handler does not compute the key as "
@@ -199,6 +224,16 @@ def pop_then_notify(ctx, res):
     fn = repo.func(HT, "_create_property_observe_state")
     h = [f for f in ast.walk(fn) if isinstance(f, ast.FunctionDef)
          and f.name == "handler"][0]
+    # local closures of the factory that the handler calls are analysed in
+    # place, and conditional expressions as the two cases they are
+    from ..pyfacts import inline_helpers, lower_ifexp_assign
+
+    class _Shim:
+        functions = dict(mod.functions)
+    for f_ in ast.walk(fn):
+        if isinstance(f_, ast.FunctionDef) and f_ is not h and f_ is not fn:
+            _Shim.functions[f_.name] = f_
+    h = lower_ifexp_assign(inline_helpers(_Shim, None, h))
     inst = h.args.args[0].arg
 
     class F(PyFlow):
@@ -414,6 +449,11 @@ def lifecycle(ctx, res):
     d = [n for n in ast.walk(st) if isinstance(n, ast.Call)
          and norm(n.func) == "dict"]
     kws = {k.arg: norm(k.value) for c in d for k in c.keywords}
+    for n in ast.walk(st):
+        if isinstance(n, ast.Dict):
+            for k, v in zip(n.keys, n.values):
+                if isinstance(k, ast.Constant) and isinstance(k.value, str):
+                    kws.setdefault(k.value, norm(v))
     res.instance("_create_property_observe_state", mod.loc(st))
     res.oblige(kws.get("post_init") == "False",
                "property-observers:pre-state", mod.loc(st),
